@@ -457,7 +457,8 @@ pub fn run(ctx: &mut Ctx) {
     let max_pairs = ctx.param("max_pairs", 6);
     for _ in 0..ctx.count {
         let mut rng = ctx.rng.fork();
-        let (ops, stream): (Vec<XOp>, &str) = match rng.below(9) {
+        let (ops, stream): (Vec<XOp>, &str) = match rng.below(10) {
+            9 => (crate::suites::eg::gen_late_redundancy2(&mut rng).into_iter().map(XOp::Base).collect(), "latered2"),
             8 => (crate::suites::eg::gen_late_redundancy(&mut rng).into_iter().map(XOp::Base).collect(), "latered"),
             0 | 1 => (gen_congr(&mut rng).into_iter().map(XOp::Base).collect(), "congr"),
             2 | 3 => (gen_rules(&mut rng), "rules"),
